@@ -529,6 +529,10 @@ def check_c17(rep):
                         rlen=8 + extra), 8, rng)))
                     frames.append(C.from_console("at5", 0xC0, GM.fill_tails(C.at5_ac_status(
                         [{"n": i, "power": 1, "mode": 4, "fan": 3, "sp": 120 + i} for i in range(2)], rlen=10 + extra), 10, rng)))
+                    # the timer status records (AC number, on-timer, off-timer, four padding bytes = 9) likewise
+                    frames.append(C.from_console("at5", 0xC0, GM.fill_tails(C.c0(
+                        0x33, [[i] + C._timer((6 + i, 30 + i)) + C._timer((22, 15) if i != 1 else None) + [0, 0, 0, 0] for i in range(3)],
+                        9 + extra), 9, rng)))
         n_unknown += len(frames)
         rng.shuffle(frames)
         for i in range(0, len(frames), 10):
